@@ -435,7 +435,7 @@ PROPS.update({
                 assumptions=["lag bounded by the capacity for the stepwise statement (the lagging case is C06)"],
                 level_text="Coq theorems over all histories (any interleaving of mutators, entry traversals, transactions, subscriptions of both flavours, polls, drops): every published diff is strictly applicable and takes the contents before the call to the contents after it; a direct call publishes exactly one diff, the documented no-ops none; a subscriber that never lagged has, at every Pending, received exactly the concatenation of everything published since it subscribed whatever the polling pattern and flavour, and its replica is the contents. Tied to vector.rs/subscriber.rs by exhaustive short histories and random long ones; the harness checks independently (with a plain Vec as shadow) that the replica passes through every state in order and that the number of delivered diffs is the number specified.",
                 level_note="Trusted: Coq kernel, extraction, harness, imbl::Vector as list, tokio broadcast as a position log."),
-    "C06": dict(streams=ovec_streams("c06", {"replica", "app", "lagreset"}), trusted=OVEC_TRUST,
+    "C06": dict(streams=ovec_streams("c06", {"replica", "app", "lagreset", "resetcurrent", "batchcurrent"}), trusted=OVEC_TRUST,
                 assumptions=["single-threaded use of the vector (it is !Sync by construction: &mut self mutators)"],
                 level_text="Coq theorems for every capacity, history and polling pattern: at every Pending the replica equals the contents; a Reset is delivered only to a receiver more than cap2 >= capacity messages behind, alone in its item, carrying the contents as of delivery; no delivered diff is ever inapplicable; every batched item catches up completely; the unreachable!()s, the expect() and the drain loops are safe. Proved through an inductive invariant (window clause, last-message clause, YieldBatch clause) over the history semantics. Tied to the crate by lag-focused exhaustive blocks around the rounded capacity and random low-poll-rate histories.",
                 level_note="Trusted: as C05. The broadcast channel model is the main modelling risk; it is exercised at capacities 1, 2, 3, 5, 16."),
